@@ -280,6 +280,8 @@ def run(repo='/repo', tier='quick'):
     c14h(db, res)
     c14i(db, res)
     c14j(db, res)
+    c14k(db, res)
+    c14l(db, res)
     res.assumptions.append('byte-exact parts and equality of flags across chunkings are not decided')
     return res
 
@@ -427,3 +429,68 @@ def c14j(db, res):
         res.check(bad is None, 'C14.j', 'htp_mpartp_parse:data[%s+%d]:end-of-chunk-arm' % (cur, k), 'the end-of-chunk arm only records what was seen',
                   'htp_mpartp_parse reads data[%s + %d] and, when that byte is not in this chunk, goes on to raise a flag or change the parser state (%s): "no byte yet" is treated like "a different byte", so the format flags and the parts depend on where the body was cut' % (cur, k, S(bad)[:80] if bad is not None else ''), x.get('loc', f.loc))
     res.floor('C14.j', 'guarded look-ahead reads in htp_mpartp_parse', n, 1)
+
+
+def c14k(db, res):
+    """Every part reports its own Content-Type, file or not (a text field may carry one; RFC 7578 section 4.4): whether the header is
+    parsed does not depend on what kind of part it is."""
+    res.rule('C14.k', 'the Content-Type of a part is parsed whatever kind of part it is: no branch of htp_mpart_part_parse_c_t / htp_mpart_part_process_headers reads part->file or part->type')
+    n = 0
+    for name in ('htp_mpart_part_parse_c_t', 'htp_mpart_part_process_headers'):
+        f = db.get(name)
+        bad = None
+        for b in sorted(f.blocks):
+            c = f.cond_of(b)
+            if not c:
+                continue
+            n += 1
+            for m in nodes(c[0], lambda y: y.get('k') == 'member'):
+                if m.get('field') in ('file', 'type') and m.get('rec') == 'htp_multipart_part_t':
+                    bad = c[0]
+        res.check(bad is None, 'C14.k', name + ':independent-of-part-kind', 'no branch on the kind of part',
+                  '%s decides on part->file / part->type whether the part headers are processed: a text field that carries a Content-Type header is reported without it' % name, (bad or {}).get('loc', f.loc))
+    res.floor('C14.k', 'branches in the part-header processing', n, 3)
+
+
+def c14l(db, res):
+    """The boundary parameter of the Content-Type header may be quoted; inside the quotes only the closing quote ends the value
+    (commas and semicolons are ordinary boundary characters there). The scan of a quoted value therefore compares the byte at
+    the cursor with nothing but the quote."""
+    res.rule('C14.l', 'a quoted boundary ends at its closing quote only: in htp_mpartp_find_boundary the first scan loop entered from the true edge of data[pos] == \'"\' compares the byte at the cursor with the quote character and nothing else')
+    f = db.get('htp_mpartp_find_boundary')
+    n = 0
+    for b in sorted(f.blocks):
+        c = f.cond_of(b)
+        if not c:
+            continue
+        a = P.canon(c[0], True)
+        if not (a and a[0].startswith('data[') and a[1] == '==' and a[2] in ('34', "'\"'")):
+            continue
+        tsucc = f.blocks[b]['succs'][0]
+        # first loop header reachable from the true edge
+        seen, w, hdr = set(), [tsucc], None
+        heads = {h: body for h, body in C.loops(f)}
+        while w and hdr is None:
+            x = w.pop(0)
+            if x in seen:
+                continue
+            seen.add(x)
+            if x in heads:
+                hdr = x
+                break
+            w += [s_ for s_ in f.blocks[x]['succs'] if s_ is not None]
+        if hdr is None:
+            continue
+        n += 1
+        lits = set()
+        for bb in heads[hdr]:
+            c2 = f.cond_of(bb)
+            if not c2:
+                continue
+            for e in nodes(c2[0], lambda y: y.get('k') == 'bin' and y['op'] in ('==', '!=') and strip(y['l']).get('k') == 'index' and strip(y['r']).get('k') == 'lit'):
+                lits.add(strip(e['r'])['v'])
+            for cl in nodes(c2[0], lambda y: y.get('k') == 'call' and (y.get('callee') or '').startswith('htp_is_')):
+                lits.add(cl.get('callee'))
+        res.check(lits <= {34}, 'C14.l', 'htp_mpartp_find_boundary:quoted-value-scan', 'the quoted value is scanned up to the closing quote',
+                  'the scan of a quoted boundary also stops at %s: a legal quoted boundary that contains such a character is cut short, no delimiter of the body matches it and the whole body is reported as one preamble part' % sorted(str(x) for x in lits - {34}), c[0].get('loc', f.loc))
+    res.floor('C14.l', 'quoted-boundary scans', n, 1)
